@@ -293,6 +293,24 @@ def run(ctx: Ctx, rep: Report) -> None:
                     classes = ctx.exc_classes(val, raises[0].exc) if raises else None
                     loop_ok = bool(raises) and classes is not None and all(ctx.r.is_subclass(c, snmp_error) for c in classes)
                     detail = f"raises {[c.name for c in classes] if classes is not None else 'an unresolved class'}" if raises else "the hit does not raise unconditionally"
+        # only Report PDUs carry USM error indications: in a GetResponse the usmStats counters are ordinary data
+        def not_report_env(expr: ast.expr) -> Optional[bool]:
+            expr = vdefs.expand(expr)  # type: ignore[assignment]
+            if isinstance(expr, ast.Call) and isinstance(expr.func, ast.Name) and expr.func.id == "isinstance" and len(expr.args) == 2:
+                cls_ = ctx.r.resolve_class(val.module, expr.args[1])
+                if cls_ is not None and cls_.name == "Report":
+                    return False
+            return None
+
+        nouts = simulate(ctx.cfg(val), not_report_env)
+        callers_guard = []
+        for caller, ccall in ctx.callers_of(val):
+            ccfg = ctx.cfg(caller)
+            cn = cfg_node_of(ccfg, ccall)
+            conds = ccfg.conditions_to(cn) if cn is not None else []
+            callers_guard.append(bool(conds) and all(any("isinstance(" in norm(c) and "Report" in norm(c) and pol for c, pol in path) for path in conds))
+        only_reports = (bool(nouts) and all(o.kind != "raise" for o in nouts)) or (bool(callers_guard) and all(callers_guard))
+        rep.check(only_reports, "C12-R4", val.site(), "the usmStats OIDs count as error indication only in Report PDUs (an authentic response that carries them as data - a GET or walk below 1.3.6.1.6.3.15.1.1 - is delivered)", "a PDU that is not a Report reaches the raising lookup" if not only_reports else "", key=f"{val.key}|usmstats-in-data")
         table = tables.get(tested, {}) if tested else {}
         for oid, name in sorted(rfc.USM_STATS.items()):
             rep.check(oid in table, "C12-R4", val.site(), f"{name} ({oid}) is recognised as an error report", f"tested table `{tested}`: {sorted(table)}", key=f"{val.key}|usmstats|{oid}")
